@@ -698,6 +698,16 @@ class Interp:
         if m and len(a) == 3 and all(z3.is_bv(x) for x in a):
             lt = (lambda p, q: p < q) if m.group(1) == 'i' else z3.ULT
             return z3.If(lt(a[0], a[1]), a[1], z3.If(lt(a[2], a[0]), a[2], a[0]))
+        # lossless integer conversions: <usize as From<u16>>::from, <u16 as Into<usize>>::into (zero / sign extension)
+        m = re.match(r'^<([ui])(\d+|size) as From<([ui])(\d+|size)>>::from$', fname)
+        if not m:
+            m2 = re.match(r'^<([ui])(\d+|size) as Into<([ui])(\d+|size)>>::into$', fname)
+            if m2: m = re.match(r'(.)\|(.*)\|(.)\|(.*)', '%s|%s|%s|%s' % (m2.group(3), m2.group(4), m2.group(1), m2.group(2)))
+        if m and len(a) == 1 and z3.is_bv(a[0]):
+            wd = 64 if m.group(2) == 'size' else int(m.group(2))
+            ws = a[0].size()
+            if wd == ws: return a[0]
+            if wd > ws: return z3.SignExt(wd - ws, a[0]) if m.group(3) == 'i' else z3.ZeroExt(wd - ws, a[0])
         m = re.match(r'^core::num::<impl ([ui])(\d+|size)>::(\w+)$', fname)
         if not m or not a or not z3.is_bv(a[0]):
             return None
